@@ -114,7 +114,10 @@ func runSelftest(repo, verif, prop string, timeout time.Duration) (total, caught
 		patch := filepath.Join(verif, "seeded", m.ID, "patch.diff")
 		ov, err := overlayFromPatch(repo, patch)
 		if err != nil {
-			report = append(report, fmt.Sprintf("%s: cannot build overlay: %v", m.ID, err))
+			// a seed written against an older tree (a later fix touched the
+			// same lines) says nothing about the checks: reported, not counted
+			total--
+			report = append(report, fmt.Sprintf("%s: STALE, not counted (%v); rebase seeded/%s/patch.diff", m.ID, err, m.ID))
 			continue
 		}
 		e := newEngine(repo, verif)
